@@ -1040,22 +1040,22 @@ def oracle(stmts, order, ist, txns, proc, closing_cents, ccy):
             other = posts[-1] if not x["neg"] else posts[0]
             want = fg["amount"].frac() * (-1 if x["amount"] > 0 else 1)
             if other["amount"]["commodity"] != fg["ccy"] or other["amount"]["value"] != want:
-                msgs.append("%s: counter posting %s %s, the statement's transaction amount is %s %s" %
+                msgs.append("[original-amount] %s: counter posting %s %s, the statement's transaction amount is %s %s" %
                             (where, other["amount"]["value"], other["amount"]["commodity"], want, fg["ccy"]))
             xc = fg["xchg"]
             if xc is None:
                 if src["cost"] is not None or other["cost"] is not None:
-                    msgs.append("%s: a rate is printed, the statement has none" % where)
+                    msgs.append("[original-amount] %s: a rate is printed, the statement has none" % where)
                 if not (len(nz) == 2 and nz[0] < 0 < nz[1]):
                     msgs.append("%s: not an exchange of two amounts of opposite sign" % where)
             else:
                 carrier, bare = (other, src) if xc[1] == fg["ccy"] else (src, other)
                 cst = carrier["cost"]
                 if cst is None or cst[0] != "rate" or cst[1]["value"] != xc[2].frac() or cst[1]["commodity"] != xc[0]:
-                    msgs.append("%s: the %s posting does not carry the statement's rate @ %s %s (it has %s)" %
+                    msgs.append("[original-amount] %s: the %s posting does not carry the statement's rate @ %s %s (it has %s)" %
                                 (where, xc[1], xc[2].text(), xc[0], cst))
                 if bare["cost"] is not None:
-                    msgs.append("%s: the %s posting carries a rate the statement does not give" % (where, xc[0]))
+                    msgs.append("[original-amount] %s: the %s posting carries a rate the statement does not give" % (where, xc[0]))
                 if nz:
                     msgs.append("%s: postings valued at the statement's rate do not sum to zero" % where)
     if msgs:
@@ -1365,6 +1365,14 @@ def run(chk):
                 for ch in e["charges"] + [c for d in e["details"] for c in d["charges"]]:
                     chk.count("charge:" + ("zero" if ch["amount"].mant == 0 else "included" if ch["included"] else "not-included"))
         msgs = oracle(stmts, order, ist, itx, iproc, closing, ccy)
+        if msgs and all(m.startswith("[original-amount]") for m in msgs):
+            # how a detail's ORIGINAL amount in another currency and its rate are shown is not ruled on by the property's text
+            # (dates, signs, balances, acceptance all hold): reported as a broken correspondence, not as a failing input
+            chk.disagreements += 1
+            chk.violation("Camt053 import no longer shows a detail's original amount / rate as the statement gives them: " + msgs[0],
+                          dict(replay, stream="c18 camt original-amount", oracle=msgs[:10], drv_case=dline),
+                          no_failing_input=True, tag="corr")
+            continue
         if msgs:
             chk.oracle_failures += 1
             chk.violation("Camt053 import breaks C18: " + msgs[0], dict(replay, oracle=msgs[:10]))
